@@ -13,6 +13,11 @@ Bounded exhaustive input enumeration on the real Serializer / payload classes:
   and inside a ``payload-list`` of one and of two items;
 * every registered packer directly (``Packer.pack/unpack``, ``Serializer.pack/unpack``) at offsets 0, 1, 23;
 * ``CellPayload.to_bin / from_bin``;
+* the serializer of every shipped overlay *instance* (``overlay.serializer`` and a fresh ``overlay.get_serializer()``):
+  every library and synthetic class it can encode, in all positions above plus depth 2 (payload in payload, payload
+  in list, list in payload, list in list); classes using a format the overlay registered itself (``flags``,
+  ``node-list``) with every instance within 1 (thorough 2) deviations of two bases, the others with their
+  representative instances; reported is what fails there but not with a plain Serializer;
 * co-resident overlays (mc/ref/c02_sandbox.py): real instances of every shipped overlay class, alone, in every ordered
   pair, side by side in every construction order, and next to an application overlay that registers its own packer
   under each known format name (constructed before and after): what an overlay's serializer does with every format
@@ -48,9 +53,11 @@ SENTINEL_A, SENTINEL_B = 0xA55A, 0x5AA5
 GLOBAL_TIME = 0x0102030405060708
 OFFSETS = (0, 1, 23)
 CONTEXTS = ("o0", "o1", "o23", "dgram", "nested", "list1", "list2")
-CONTEXT_EXTRA = {"dgram": frozenset(["varlenH", "Q"]), "nested": frozenset(["H", "payload"]),
+CONTEXT_EXTRA = {**{k: frozenset(["H", "payload", "payload-list"]) for k in ("nested2", "listnest", "nestlist", "listlist")},"dgram": frozenset(["varlenH", "Q"]), "nested": frozenset(["H", "payload"]),
                  "list1": frozenset(["H", "payload", "payload-list"]), "list2": frozenset(["H", "payload", "payload-list"])}
-CONTEXT_KIND = {"o0": "top", "o1": "embedded", "o23": "embedded", "dgram": "embedded", "nested": "nested",
+# depth-2 positions: (outer, inner) with n = nested as payload, l = item of a payload-list
+DEEP_CONTEXTS = {"nested2": "nn", "listnest": "ln", "nestlist": "nl", "listlist": "ll"}
+CONTEXT_KIND = {"nested2": "nested2", "listnest": "nested2", "nestlist": "nested2", "listlist": "nested2","o0": "top", "o1": "embedded", "o23": "embedded", "dgram": "embedded", "nested": "nested",
                 "list1": "list", "list2": "list", "list0": "list", "list255": "list"}
 
 dom.all_specs()  # import the library and build every class specification before workers are forked
@@ -76,6 +83,31 @@ def wrappers(spec: dom.ClassSpec) -> tuple[type, type]:
                    {"format_list": ["H", [spec.cls], "H"], "names": ["before", "items", "after"]})
         _WRAPPERS[spec.key] = (nest, lst)
     return _WRAPPERS[spec.key]
+
+
+_DEEP: dict[tuple, tuple[type, type]] = {}
+
+
+def _wrap(inner: type, kind: str, ident: str) -> type:
+    """A payload holding ``inner`` nested (kind n) or as the only item of a payload-list (kind l), between sentinels."""
+    return vp_compile(type(f"C02Deep{kind.upper()}_{ident}", (VariablePayload,),
+                           {"format_list": ["H", inner if kind == "n" else [inner], "H"],
+                            "names": ["before", "held", "after"]}))
+
+
+def deep_wrappers(spec: dom.ClassSpec, path: str) -> tuple[type, type]:
+    """(outer, inner) wrapper classes for a depth-2 position, e.g. path "ln": a list of payloads that nest the class."""
+    if (spec.key, path) not in _DEEP:
+        ident = "".join(ch if ch.isalnum() else "_" for ch in spec.key)
+        inner = _wrap(spec.cls, path[1], ident + "_" + path[1])
+        _DEEP[(spec.key, path)] = (_wrap(inner, path[0], ident + "_" + path), inner)
+    return _DEEP[(spec.key, path)]
+
+
+def _ref_wrap(body: bytes, kind: str) -> bytes:
+    """Reference bytes of a wrapper of _wrap() around the reference bytes of what it holds."""
+    return (struct.pack(">H", SENTINEL_A) + (b"" if kind == "n" else b"\x01") + struct.pack(">H", len(body)) + body
+            + struct.pack(">H", SENTINEL_B))
 
 
 # ------------------------------------------------------------------------------------------------
@@ -149,12 +181,12 @@ def check_decoded(spec: dom.ClassSpec, descs: list, obj: Any, end: int, want_end
                                    f" instead of {_hex(enc, _first_diff(again, enc))} ({where})"))
 
 
-def evaluate(spec: dom.ClassSpec, descs: list, contexts: tuple = CONTEXTS) -> tuple[list, dict]:  # noqa: C901, PLR0912, PLR0915
+def evaluate(spec: dom.ClassSpec, descs: list, contexts: tuple = CONTEXTS, ser=None) -> tuple[list, dict]:  # noqa: ANN001, C901, PLR0912, PLR0915
     """
     Run every oracle on one instance.  Returns (findings, info); info = {"evaluations", "enc_len", "skipped"}.
     Findings of a later position are reported only if the same finding did not already occur at offset 0.
     """
-    ser = dom.serializer()
+    ser = ser if ser is not None else dom.serializer()
     info = {"evaluations": 0, "enc_len": -1, "skipped": 0}
     found: list[Finding] = []
     ref = spec.ref_encode(descs)  # a failure here is a harness bug and propagates
@@ -236,6 +268,29 @@ def evaluate(spec: dom.ClassSpec, descs: list, contexts: tuple = CONTEXTS) -> tu
                                        f"{spec.name} nested as payload: the fields around it decode to "
                                        f"{obj.before:#x}/{obj.after:#x}"))
                 check_decoded(spec, descs, obj.inner, end, 1 + len(data), enc, ser, "nested as payload", cur)
+            elif name in DEEP_CONTEXTS:
+                path = DEEP_CONTEXTS[name]
+                want = _ref_wrap(_ref_wrap(ref, path[1]), path[0])
+                if len(want) > 0xFFFF:
+                    info["skipped"] += 1
+                    continue
+                outer_cls, inner_cls = deep_wrappers(spec, path)
+                held = inst if path[1] == "n" else [inst]
+                middle = inner_cls(SENTINEL_A, held, SENTINEL_B)
+                data = ser.pack_serializable(outer_cls(SENTINEL_A, middle if path[0] == "n" else [middle], SENTINEL_B))
+                info["evaluations"] += 1
+                if bytes_ok and data != want:
+                    cur.append(Finding("wire-bytes", spec.name, name, "payload",
+                                       f"{spec.name} at depth 2 ({name}): {_hex(data, _first_diff(data, want))}, "
+                                       f"expected {_hex(want, _first_diff(data, want))}"))
+                obj, end = ser.unpack_serializable(outer_cls, PREFIX1 + data + SUFFIX, 1)
+                mid = obj.held if path[0] == "n" else (obj.held[0] if len(obj.held) == 1 else None)
+                leaf = None if mid is None else (mid.held if path[1] == "n" else (mid.held[0] if len(mid.held) == 1 else None))
+                if leaf is None or (obj.before, obj.after, mid.before, mid.after) != (SENTINEL_A, SENTINEL_B) * 2:
+                    cur.append(Finding("roundtrip", spec.name, f"{name}-neighbours", "payload",
+                                       f"{spec.name} at depth 2 ({name}): the surrounding payloads do not survive"))
+                else:
+                    check_decoded(spec, descs, leaf, end, 1 + len(data), enc, ser, f"at depth 2 ({name})", cur)
             else:  # list1 / list2
                 other = spec.representatives()[0]
                 items_descs = [descs] if name == "list1" else [descs, other]
@@ -267,7 +322,7 @@ def evaluate(spec: dom.ClassSpec, descs: list, contexts: tuple = CONTEXTS) -> tu
                                            f"{spec.name}: the second item of a payload-list of 2 does not survive"))
         except Exception as e:  # noqa: BLE001
             cur.append(Finding("unpack-raises", spec.name, "", spec.single_format,
-                               f"{spec.name}: decoding ({name}) raised {_exc(e)}"))
+                               f"{spec.name}: encoding or decoding in position {name} raised {_exc(e)}"))
         for f in cur:
             if name == "o0":
                 top_idents.add(f.ident())
@@ -357,6 +412,11 @@ def evaluate_class_once(spec: dom.ClassSpec) -> tuple[list, int]:
         except Exception as e:  # noqa: BLE001
             found.append(Finding("unpack-raises", spec.name, f"list{count}", "payload-list",
                                  f"{spec.name}: payload-list of {count} raised {_exc(e)}"))
+    # depth 2 (payload in payload, payload in list, list in payload, list in list) for a representative instance;
+    # only what does not already fail at offset 0 is reported (those findings carry the suffix @nested2)
+    deep_found, info = evaluate(spec, spec.representatives()[0], ("o0", *DEEP_CONTEXTS))
+    found.extend(f for f in deep_found if f.detail.endswith("@nested2"))
+    evaluations += info["evaluations"] - 1
     _attribute(spec, found)
     return found, evaluations
 
@@ -493,6 +553,46 @@ def evaluate_cell(case: list) -> list:
 # work items, workers, aggregation
 # ------------------------------------------------------------------------------------------------
 
+ALL_CONTEXTS = (*CONTEXTS, *DEEP_CONTEXTS)
+
+
+def _overlay_serializer_child(name: str, d: int, seed: int) -> dict:
+    """In a forked child: construct the overlay alone and run the oracle through its own serializers."""
+    from ipv8.messaging.serialization import Serializer  # noqa: PLC0415
+    _world, overlay = sandbox.build_alone(name)
+    serializers = [("overlay.serializer", overlay.serializer, True),
+                   ("a fresh overlay.get_serializer()", overlay.get_serializer(), False)]
+    plain = set(Serializer().get_available_formats())
+    out = {"instances": 0, "evaluations": 0, "findings": [], "own_formats": None, "classes": 0}
+    for label, ser, enumerate_own in serializers:
+        available = set(ser.get_available_formats())
+        own = available - plain
+        if out["own_formats"] is None:
+            out["own_formats"] = sorted(own)
+        for spec in dom.enumerate_classes(include_synthetic=True):
+            names = format_names(spec.ref_format_list)
+            if not names <= available:
+                continue
+            out["classes"] += 1 if enumerate_own else 0
+            many = enumerate_own and bool(names & own)
+            instances = spec.instances(d, 0, seed) if many else iter(spec.representatives())
+            for descs in instances:
+                found, info = evaluate(spec, descs, ALL_CONTEXTS, ser=ser)
+                out["instances"] += 1
+                out["evaluations"] += info["evaluations"]
+                if found:
+                    plain_idents = {f.ident() for f in evaluate(spec, descs, ALL_CONTEXTS)[0]}
+                    for f in found:
+                        if f.ident() not in plain_idents:
+                            position = f.detail.split("@")[1] if "@" in f.detail else "top"
+                            out["findings"].append((
+                                f"overlay-serializer:{f.oracle}:{position}",
+                                f"{name}, {label}: {f.what}",
+                                {"kind": "overlay-serializer", "overlay": name, "spec": spec.key, "values": descs},
+                                max(info["enc_len"], 0)))
+    return out
+
+
 def _order(replay: dict, size: int) -> tuple:
     text = json.dumps(replay, sort_keys=True)
     return (size, len(text), text)
@@ -540,6 +640,15 @@ def _worker(chunk: list) -> list:
                 res["evaluations"] += n
                 if found:
                     _merge(res["findings"], found, {"kind": "packer", "format": fmt, "value": desc}, dom.desc_size(desc))
+            elif kind == "overlay-serializer":
+                res["spec"] = f"serializer of {item[1]}"
+                got = sandbox.in_child(_overlay_serializer_child, item[1], item[2], item[3])
+                if "crash" in got:
+                    res["crash"] = f"{item!r}\n{got['crash']}"
+                else:
+                    res["instances"], res["evaluations"] = got["instances"], got["evaluations"]
+                    res["overlay_findings"] = got["findings"]
+                    res["overlay_info"] = {"own_formats": got["own_formats"], "classes": got["classes"]}
             elif kind == "sandbox":
                 res["spec"] = "co-resident overlays"
                 res["sandbox"] = (item[1], sandbox.run_config(item[1]))
@@ -588,6 +697,8 @@ def plan(ctx: core.Ctx) -> tuple[list, dict]:
     cells = cell_cases()
     items.extend(("cell", cells[i:i + 16]) for i in range(0, len(cells), 16))
     items.extend(("sandbox", steps) for steps in sandbox.configurations(ctx.thorough))
+    # the heaviest items first: they would otherwise be the tail of the run
+    items[:0] = [("overlay-serializer", name, 2 if ctx.thorough else 1, ctx.seed) for name in sandbox.overlay_names()]
     return items, modes
 
 
@@ -660,12 +771,20 @@ def run(ctx: core.Ctx) -> core.Report:  # noqa: C901, PLR0912, PLR0915
     crashes: list[str] = []
     totals = {"instances": 0, "evaluations": 0, "nontrivial": 0, "skipped": 0}
     observed: list = []
+    overlay_best: dict[str, tuple] = {}
+    overlay_info: dict[str, dict] = {}
     with core.Pool(_worker, ctx.jobs) as pool:
         for results in pool.map_chunks(core.chunks(items, 4)):
             for res in results:
                 if res["crash"]:
                     crashes.append(res["crash"])
                     continue
+                for key, what, rep, size in res.get("overlay_findings", ()):
+                    order = _order(rep, size)
+                    if key not in overlay_best or order < overlay_best[key][0]:
+                        overlay_best[key] = (order, what, rep)
+                if "overlay_info" in res:
+                    overlay_info[res["spec"]] = res["overlay_info"]
                 if "sandbox" in res:
                     observed.append(res["sandbox"])
                     res["instances"] = 1
@@ -691,6 +810,7 @@ def run(ctx: core.Ctx) -> core.Report:  # noqa: C901, PLR0912, PLR0915
     violations = keys_from(findings)
     sandbox_violations, sandbox_cov = sandbox_verdicts(observed)
     violations.extend(sandbox_violations)
+    violations.extend(core.Violation(k, what, rep) for k, (_o, what, rep) in sorted(overlay_best.items()))
     ser = dom.serializer()
     registered = ser.get_available_formats()
     for fmt in wire.DOCUMENTED_FORMATS:
@@ -740,6 +860,9 @@ def run(ctx: core.Ctx) -> core.Report:  # noqa: C901, PLR0912, PLR0915
         "custom_packers": {k: v for k, v in dom.packer_sources().items() if v != "default"},
         "per_class": {k: {**v, "mode": modes.get(k, "alphabet")} for k, v in sorted(per.items())},
         "co_resident_overlays": sandbox_cov,
+        "overlay_serializers": {"positions": list(ALL_CONTEXTS), "per_overlay": overlay_info,
+                                "own_format_classes": "every instance within 1 (thorough 2) deviations of two bases",
+                                "other_classes": "representative instances"},
         "distinct_failing_checks": len(findings),
         "explanation": "bounded exhaustive enumeration of boundary instances of every Serializable class and packer; "
                        "oracle = field equality + exact end offset + identical re-encoding + bytes equal to an "
@@ -784,6 +907,26 @@ def replay(ctx: core.Ctx, data: dict) -> list:
         _merge(findings, found, data, 0)
     elif kind == "cell":
         _merge(findings, evaluate_cell(data["case"]), data, 0)
+    elif kind == "overlay-serializer":
+        def one() -> dict:
+            _world, overlay = sandbox.build_alone(data["overlay"])
+            spec = dom.spec_by_key(data["spec"])
+            out = []
+            plain_idents = {f.ident() for f in evaluate(spec, data["values"], ALL_CONTEXTS)[0]}
+            for label, ser in (("overlay.serializer", overlay.serializer),
+                               ("a fresh overlay.get_serializer()", overlay.get_serializer())):
+                for f in evaluate(spec, data["values"], ALL_CONTEXTS, ser=ser)[0]:
+                    if f.ident() not in plain_idents:
+                        position = f.detail.split("@")[1] if "@" in f.detail else "top"
+                        out.append((f"overlay-serializer:{f.oracle}:{position}", f"{data['overlay']}, {label}: {f.what}"))
+            return {"found": out}
+        got = sandbox.in_child(one)
+        if "crash" in got:
+            raise RuntimeError(got["crash"])
+        seen: dict = {}
+        for key, what in got["found"]:
+            seen.setdefault(key, what)
+        return [core.Violation(k, w) for k, w in sorted(seen.items())]
     elif kind == "sandbox":
         steps = [list(st) for st in data["steps"]]
         observed = [([["overlay", arg]], sandbox.run_config([["overlay", arg]]))
